@@ -54,6 +54,11 @@ TSetRO   == Is("setro")   /\ SetReadOnly       /\ res' = <<E.err>>
 TOpen2   == Is("open2")   /\ SecondOpen        /\ res' = <<E.err>>
 TQuiet   == Is("quiet")   /\ StorageQuiet(E.what, E.count)
 TIntact  == Is("intact")  /\ BufferIntact(E.same = 1)
+\* C08: calls that failed under an injected storage fault
+TFailed  == /\ E.ev \in {"get", "has", "compact", "txopen", "txwrite", "txget", "txhas", "reopen", "misc", "snap", "snapget", "snaphas"}
+            /\ E.err = "fail"
+            /\ FailedCall
+TCloseF  == Is("close") /\ E.err = "fail" /\ CloseFailed
 \* informational lines (layout steering, option rows): no contract step
 TNote    == Is("note")    /\ UNCHANGED kvvars
 
@@ -64,7 +69,7 @@ KVStep ==
      \/ TSnap \/ TSnapGet \/ TSnapHas \/ TSnapRel
      \/ TIterNew \/ TIter \/ TIterRel
      \/ TTxOpen \/ TTxWrite \/ TTxGet \/ TTxHas \/ TTxCommit \/ TTxDiscard
-     \/ TClose \/ TReopen \/ TSetRO \/ TNote \/ TMisc \/ TOpen2 \/ TQuiet \/ TIntact
+     \/ TClose \/ TReopen \/ TSetRO \/ TNote \/ TFailed \/ TCloseF \/ TMisc \/ TOpen2 \/ TQuiet \/ TIntact
 
 Advance == l <= Len(Trace) /\ l' = l + 1
 \* evaluated only after the step's own conjuncts held: the register is the highest line number reached
